@@ -10,7 +10,7 @@ Proof. induction k as [|k IH]; intro s; [reflexivity|]. cbn [p_iter] in *. apply
 
 Lemma done_step c s : is_done s = true -> p_step c s = s.
 Proof.
-  destruct s as [pc t a r]. unfold is_done. cbn [s_pc]. destruct pc; try discriminate.
+  destruct s as [pc t a r g]. unfold is_done. cbn [s_pc]. destruct pc; try discriminate.
   intros _. unfold p_step. destruct (c_kind c); reflexivity.
 Qed.
 
@@ -32,7 +32,7 @@ Definition inv (c : pcfg) (s : pst) : Prop :=
 
 Lemma inv_step c s : inv c s -> inv c (p_step c s).
 Proof.
-  destruct s as [pc t a r]. unfold inv, p_step. cbn [s_pc s_t].
+  destruct s as [pc t a r g]. unfold inv, p_step. cbn [s_pc s_t].
   destruct (c_kind c); destruct pc; cbn [s_pc s_t]; intro H;
     repeat match goal with |- context [if ?b then _ else _] => destruct b eqn:? end;
     cbn [s_pc s_t]; try exact I; try assumption.
@@ -44,13 +44,65 @@ Proof. induction k as [|k IH]; intros s H; [exact H|]. cbn [p_iter]. apply IH, i
 Lemma inv_init c : inv c p_init.
 Proof. unfold inv, p_init. cbn. destruct (c_kind c); exact I. Qed.
 
+(* the guard of group_sites_for_algorithm is idempotent on what a fresh run produced: a psi loaded from a
+   checkpoint (already grouped group_sites times) is NOT grouped again *)
+Lemma g_enter_idem gs : g_enter true gs (g_enter false gs []) = g_enter false gs [].
+Proof.
+  unfold g_enter. destruct (1 <? gs) eqn:E; [|reflexivity].
+  cbn [negb orb prod_nat fold_right].
+  rewrite Nat.mul_1_r, Nat.ltb_irrefl. reflexivity.
+Qed.
+
+Lemma g_enter_fresh_prod gs : 1 <= gs -> prod_nat (g_enter false gs []) = gs.
+Proof.
+  intro H. unfold g_enter. destruct (1 <? gs) eqn:E; cbn [negb orb prod_nat fold_right].
+  - lia.
+  - apply Nat.ltb_ge in E. lia.
+Qed.
+
+Lemma g_split_fresh gs : g_split gs (g_enter false gs []) = [].
+Proof. unfold g_split, g_enter. destruct (1 <? gs); reflexivity. Qed.
+
+(* grouping invariant: between the initialisation and the final group_split, psi carries exactly the
+   grouping that group_sites_for_algorithm of a fresh run applies to an ungrouped state *)
+Definition ginv (c : pcfg) (s : pst) : Prop :=
+  match s_pc s with
+  | PInit => s_g s = []
+  | PDone => s_g s = []
+  | _ => s_g s = g_enter false (c_group c) []
+  end.
+
+Lemma ginv_step c s : ginv c s -> ginv c (p_step c s).
+Proof.
+  destruct s as [pc t a r g]. unfold ginv, p_step. cbn [s_pc s_g].
+  destruct (c_kind c); destruct pc; cbn [s_pc s_g]; intro H;
+    repeat match goal with |- context [if ?b then _ else _] => destruct b eqn:? end;
+    cbn [s_pc s_g]; try exact I; try assumption; try (rewrite H; reflexivity);
+    try (rewrite H; apply g_split_fresh).
+Qed.
+
+Lemma ginv_iter c k : forall s, ginv c s -> ginv c (p_iter c k s).
+Proof. induction k as [|k IH]; intros s H; [exact H|]. cbn [p_iter]. apply IH, ginv_step, H. Qed.
+
+Lemma ginv_init c : ginv c p_init.
+Proof. reflexivity. Qed.
+
+Lemma snapshot_pc c s : at_snapshot c s = true -> s_pc s = PMeasured \/ s_pc s = PSaved.
+Proof. unfold at_snapshot. destruct (c_kind c); destruct (s_pc s); try discriminate; auto. Qed.
+
+Lemma snapshot_g c s : ginv c s -> at_snapshot c s = true -> s_g s = g_enter false (c_group c) [].
+Proof. intros Hg Hs. unfold ginv in Hg. destruct (snapshot_pc c s Hs) as [E|E]; rewrite E in Hg; exact Hg. Qed.
+
+Lemma resume_g c s : ginv c s -> at_snapshot c s = true -> g_enter true (c_group c) (s_g s) = s_g s.
+Proof. intros Hg Hs. rewrite (snapshot_g c s Hg Hs). apply g_enter_idem. Qed.
+
 (* resume with everything restored *)
-Definition resume_full (s : pst) : pst := mkSt (PHead true) (s_t s) (s_acc s) (s_recs s).
+Definition resume_full (s : pst) : pst := mkSt (PHead true) (s_t s) (s_acc s) (s_recs s) (s_g s).
 
 Lemma resume_full_step c s : inv c s -> at_snapshot c s = true ->
   p_step c (resume_full s) = match c_kind c with TE => p_step c (p_step c s) | GS => p_step c s end.
 Proof.
-  destruct s as [pc t a r]. unfold inv, at_snapshot, resume_full, p_step. cbn [s_pc s_t s_acc s_recs].
+  destruct s as [pc t a r g]. unfold inv, at_snapshot, resume_full, p_step. cbn [s_pc s_t s_acc s_recs s_g].
   destruct (c_kind c); destruct pc; try discriminate; intros Hi _.
   - reflexivity.
   - rewrite Hi. reflexivity.
@@ -72,27 +124,32 @@ Proof.
 Qed.
 
 (* what does not depend on the accumulated error: control, time, the time component of the records *)
-Definition esame (s1 s2 : pst) : Prop := s_pc s1 = s_pc s2 /\ s_t s1 = s_t s2 /\ times s1 = times s2.
+Definition esame (s1 s2 : pst) : Prop :=
+  s_pc s1 = s_pc s2 /\ s_t s1 = s_t s2 /\ times s1 = times s2 /\ s_g s1 = s_g s2.
 
 Lemma esame_step c s1 s2 : esame s1 s2 -> esame (p_step c s1) (p_step c s2).
 Proof.
-  destruct s1 as [pc1 t1 a1 r1], s2 as [pc2 t2 a2 r2]. unfold esame, times. cbn [s_pc s_t s_recs].
-  intros [Hpc [Ht Hr]]. subst pc2 t2. unfold p_step.
-  destruct (c_kind c); destruct pc1; cbn [s_pc s_t s_recs];
-    rewrite ?map_app, ?Hr; cbn [map fst]; try (repeat split; reflexivity).
-  - destruct (c_T c <=? t1); cbn [s_pc s_t s_recs]; repeat split; try reflexivity; exact Hr.
-  - destruct (c_T c <? t1); cbn [s_pc s_t s_recs]; [repeat split; try reflexivity; exact Hr|].
-    destruct first; cbn [s_pc s_t s_recs]; repeat split; try reflexivity; exact Hr.
+  destruct s1 as [pc1 t1 a1 r1 g1], s2 as [pc2 t2 a2 r2 g2]. unfold esame, times. cbn [s_pc s_t s_recs s_g].
+  intros [Hpc [Ht [Hr Hg]]]. subst pc2 t2 g2. unfold p_step.
+  destruct (c_kind c); destruct pc1; cbn [s_pc s_t s_recs s_g];
+    try match goal with |- context [c_minit c] => destruct (c_minit c) end;
+    rewrite ?map_app, ?Hr; cbn [map fst]; try (repeat split; reflexivity); try (repeat split; try reflexivity; exact Hr).
+  - destruct (c_T c <=? t1); cbn [s_pc s_t s_recs s_g]; repeat split; try reflexivity; exact Hr.
+  - destruct (c_T c <? t1); cbn [s_pc s_t s_recs s_g]; [repeat split; try reflexivity; exact Hr|].
+    destruct first; cbn [s_pc s_t s_recs s_g]; repeat split; try reflexivity; exact Hr.
 Qed.
 
 Lemma esame_iter c n : forall s1 s2, esame s1 s2 -> esame (p_iter c n s1) (p_iter c n s2).
 Proof. induction n as [|n IH]; intros s1 s2 H; [exact H|]. cbn [p_iter]. apply IH, esame_step, H. Qed.
 
-Lemma esame_resume c s : esame (p_resume c s) (resume_full s).
-Proof. unfold esame, p_resume, resume_full, times. cbn. repeat split. Qed.
+Lemma esame_resume c s : ginv c s -> at_snapshot c s = true -> esame (p_resume c s) (resume_full s).
+Proof.
+  intros Hg Hs. unfold esame, p_resume, resume_full, times. cbn [s_pc s_t s_recs s_g].
+  rewrite (resume_g c s Hg Hs). repeat split.
+Qed.
 
-Lemma resume_restored c s : c_restore c = true -> p_resume c s = resume_full s.
-Proof. intro H. unfold p_resume, resume_full. rewrite H. reflexivity. Qed.
+Lemma resume_restored c s : ginv c s -> at_snapshot c s = true -> c_restore c = true -> p_resume c s = resume_full s.
+Proof. intros Hg Hs H. unfold p_resume, resume_full. rewrite H, (resume_g c s Hg Hs). reflexivity. Qed.
 
 (* main statements *)
 Lemma resume_measurements c k m :
@@ -100,16 +157,52 @@ Lemma resume_measurements c k m :
   is_done (p_iter c m p_init) = true ->
   let r := p_iter c m (p_resume c (p_iter c k p_init)) in
   is_done r = true /\ s_t r = s_t (p_iter c m p_init) /\ times r = times (p_iter c m p_init) /\
+  s_g r = s_g (p_iter c m p_init) /\
   (c_restore c = true -> r = p_iter c m p_init).
 Proof.
   intros Hs Hd r.
-  pose proof (esame_iter c m _ _ (esame_resume c (p_iter c k p_init))) as [Hpc [Ht Htm]].
-  rewrite (resume_full_equal c k m Hs Hd) in Hpc, Ht, Htm.
-  fold r in Hpc, Ht, Htm.
-  split; [|split; [exact Ht|split; [exact Htm|]]].
+  pose proof (ginv_iter c k _ (ginv_init c)) as Hgi.
+  pose proof (esame_iter c m _ _ (esame_resume c (p_iter c k p_init) Hgi Hs)) as [Hpc [Ht [Htm Hg]]].
+  rewrite (resume_full_equal c k m Hs Hd) in Hpc, Ht, Htm, Hg.
+  fold r in Hpc, Ht, Htm, Hg.
+  split; [|split; [exact Ht|split; [exact Htm|split; [exact Hg|]]]].
   - unfold is_done in *. rewrite Hpc. exact Hd.
-  - intro Hr. unfold r. rewrite (resume_restored c _ Hr). apply resume_full_equal; assumption.
+  - intro Hr. unfold r. rewrite (resume_restored c _ Hgi Hs Hr). apply resume_full_equal; assumption.
 Qed.
+
+(* the grouping across a resume: the psi of every snapshot carries the grouping of the fresh run (psi.grouped =
+   group_sites), resuming leaves it unchanged (grouped exactly once, like the freshly built model), and every
+   finished run - resumed or not - ends ungrouped *)
+Lemma resume_grouping c k m :
+  at_snapshot c (p_iter c k p_init) = true ->
+  is_done (p_iter c m p_init) = true ->
+  let s := p_iter c k p_init in
+  s_g (p_resume c s) = s_g s /\ s_g s = g_enter false (c_group c) [] /\
+  (1 <= c_group c -> prod_nat (s_g (p_resume c s)) = c_group c) /\
+  s_g (p_iter c m p_init) = [] /\ s_g (p_iter c m (p_resume c s)) = [].
+Proof.
+  intros Hs Hd s.
+  pose proof (ginv_iter c k _ (ginv_init c)) as Hgi. fold s in Hgi, Hs.
+  assert (Hfin : s_g (p_iter c m p_init) = []).
+  { destruct m as [|m]; [cbn in Hd; discriminate|].
+    rewrite <- iter_step in *.
+    pose proof (ginv_iter c m _ (ginv_init c)) as Hm.
+    destruct (p_iter c m p_init) as [pc t a r g]. unfold ginv in Hm. cbn [s_pc s_g] in Hm.
+    unfold p_step in *. destruct (c_kind c); destruct pc; cbn [s_pc s_g is_done] in *;
+      repeat match goal with H : context [if ?b then _ else _] |- _ => destruct b eqn:? end;
+      cbn [s_pc s_g is_done] in *; try discriminate; try exact Hm; try (rewrite Hm; apply g_split_fresh). }
+  split; [|split; [|split; [|split]]].
+  - unfold p_resume. cbn [s_g]. apply (resume_g c s Hgi Hs).
+  - apply (snapshot_g c s Hgi Hs).
+  - intro H1. unfold p_resume. cbn [s_g]. rewrite (resume_g c s Hgi Hs), (snapshot_g c s Hgi Hs).
+    apply g_enter_fresh_prod, H1.
+  - exact Hfin.
+  - destruct (resume_measurements c k m Hs Hd) as [_ [_ [_ [Hg _]]]]. fold s in Hg. rewrite Hg. exact Hfin.
+Qed.
+
+(* the strictness of the guard matters: grouping a checkpoint's psi again (guard `<=`) would double the factor *)
+Lemma regroup_doubles : prod_nat (2 :: g_enter false 2 []) = 4 /\ prod_nat (g_enter true 2 (g_enter false 2 [])) = 2.
+Proof. split; reflexivity. Qed.
 
 (* the faithful time-evolution protocol (trunc_err is not in the resume data): the error component
    of the records restarts after a resume *)
@@ -118,15 +211,23 @@ Lemma eps_error_not_resumed : exists c k m,
   at_snapshot c (p_iter c k p_init) = true /\ is_done (p_iter c m p_init) = true /\
   s_recs (p_iter c m (p_resume c (p_iter c k p_init))) <> s_recs (p_iter c m p_init).
 Proof.
-  exists (mkCfg TE 2 1 (fun _ => 1) false), 3, 12.
+  exists (mkCfg TE 2 1 (fun _ => 1) false true 1), 3, 12.
   repeat split; try reflexivity. vm_compute. discriminate.
 Qed.
 
 (* the protocol is live: a uninterrupted run finishes (so the hypotheses above are satisfiable) *)
-Lemma te_finishes : is_done (p_iter (mkCfg TE 3 2 (fun _ => 1) true) 12 p_init) = true /\
-                    times (p_iter (mkCfg TE 3 2 (fun _ => 1) true) 12 p_init) = [0; 2; 4].
+Lemma te_finishes : is_done (p_iter (mkCfg TE 3 2 (fun _ => 1) true true 1) 12 p_init) = true /\
+                    times (p_iter (mkCfg TE 3 2 (fun _ => 1) true true 1) 12 p_init) = [0; 2; 4].
 Proof. split; reflexivity. Qed.
 
-Lemma gs_finishes : is_done (p_iter (mkCfg GS 3 1 (fun _ => 0) true) 20 p_init) = true /\
-                    times (p_iter (mkCfg GS 3 1 (fun _ => 0) true) 20 p_init) = [0; 1; 2; 3; 4].
+Lemma gs_finishes : is_done (p_iter (mkCfg GS 3 1 (fun _ => 0) true true 1) 20 p_init) = true /\
+                    times (p_iter (mkCfg GS 3 1 (fun _ => 0) true true 1) 20 p_init) = [0; 1; 2; 3; 4].
 Proof. split; reflexivity. Qed.
+
+(* with group_sites = 2 and without the initial measurement: the run finishes ungrouped; its second snapshot holds
+   a psi with grouped = 2 *)
+Lemma te_grouped_finishes :
+  let c := mkCfg TE 3 2 (fun _ => 1) true false 2 in
+  is_done (p_iter c 12 p_init) = true /\ times (p_iter c 12 p_init) = [2; 4] /\ s_g (p_iter c 12 p_init) = [] /\
+  at_snapshot c (p_iter c 6 p_init) = true /\ s_g (p_iter c 6 p_init) = [2].
+Proof. repeat split; reflexivity. Qed.
